@@ -17,10 +17,10 @@ From RC.gen Require CounterMarkerGen.
 Module G := CounterMarkerGen.
 Local Open Scope N_scope.
 
-Notation cm := G.counter_marker.
-Notation mk := G.mk_counter_marker.
-Notation twd := G.tracing_counter_cell.
-Notation cwd := G.counter_cell.
+Local Notation cm := G.counter_marker.
+Local Notation mk := G.mk_counter_marker.
+Local Notation twd := G.tracing_counter_cell.
+Local Notation cwd := G.counter_cell.
 
 Definition decode (s : cm) : hdr := hdr_decode (twd s) (cwd s).
 Definition wf (s : cm) : Prop := twd s < 65536 /\ cwd s < 65536.
